@@ -22,7 +22,7 @@ META = dict(
          "again afterwards, so a subscriber that stays continues one contiguous run into the next input. Two defects found and fixed in /repo (stale codec info; merge-writer tail and wait "
          "flags surviving the input).",
     design_ref="§7 C16",
-    note="Partial by scope: proves the clean-restart and finalisation logic of the RTMP/FLV side of Group.delIn. HLS/TS/push finalisation, the idle check, group removal and resource baselines "
+    note="New: ts_cache_clean_after_input_ends (the HTTP-TS GOP cache after Clear holds only what came since). Partial by scope: proves the clean-restart and finalisation logic of the RTMP/FLV side of Group.delIn. HLS/TS/push finalisation, the idle check, group removal and resource baselines "
          "are not modelled here (named in not_modelled).",
     technique="Lean 4 invariant over event lists + L1 differential correspondence",
 )
